@@ -113,6 +113,9 @@ def gen_cases(tier, seed):
             for order in orders:
                 cases.append({'adapter': 'schedule_rpc', 'depth': depth, 'order': list(order), 'outcome': oc, 'thread': False})
                 cases.append({'adapter': 'schedule_rpc', 'depth': depth, 'order': list(order), 'outcome': oc, 'thread': True})
+    # the control call itself ends with asyncio's CancelledError (it asked a cancelled future for its result): the reply is a cancellation
+    for thread in (False, True):
+        cases.append({'adapter': 'schedule_rpc', 'depth': 0, 'order': [], 'outcome': ['cancel'], 'thread': thread})
     # the control call itself fails with an error that has no printable form: the reply still carries that failure
     for thread in (False, True):
         cases.append({'adapter': 'schedule_rpc', 'depth': 0, 'order': [], 'outcome': ['exc', 'UNP:callback-fails'], 'thread': thread})
@@ -365,6 +368,10 @@ def run_case(case):
 
             def callback():
                 if depth == 0:
+                    if oc[0] == 'cancel':
+                        gone = loop.create_future()
+                        gone.cancel()
+                        return gone.result()  # raises asyncio.CancelledError
                     if oc[0] == 'exc':
                         raise _exc_for(oc[1])
                     return _val(oc[1])
